@@ -286,7 +286,8 @@ def run_case(case):
                             expected=len(want), observed=len(got))
                     return
         CRoot.on_add = on_add
-        CRoot = desper.event_handler('on_add')(CRoot)
+        CRoot.on_remove = lambda self, entity, world: None
+        CRoot = desper.event_handler('on_add', 'on_remove')(CRoot)
         res.tags['components_query_from_on_add'].add(True)
 
     same = case.get('same_names', False)
@@ -385,6 +386,10 @@ def run_case(case):
             e2, row2 = comps2[[x[0] for x in comps].index(e)]
             before = {x: set(c.uid for c in w2.get_components(x))
                       for x, _ in comps2}
+            if case.get('watch') and t % 2:
+                # (handler components: the on_remove is postponed)
+                w2.dispatch_enabled = False
+                res.tags['removal_while_dispatching_disabled'].add(True)
             removed = w2.remove_component(e2, T)
             after = {x: set(c.uid for c in w2.get_components(x))
                      for x, _ in comps2}
